@@ -1006,3 +1006,31 @@ pub fn par_map<T: Send>(threads: usize, n: usize, f: impl Fn(usize) -> T + Sync)
     v.sort_by_key(|(i, _)| *i);
     v.into_iter().map(|(_, t)| t).collect()
 }
+
+/// The six criteria of a processed filter configuration.  `build()` goes through the crate's own
+/// conversion from `DltFilterConfig` (so that anything the crate derives at conversion time is
+/// derived) and then sets the processed fields exactly as given (the properties quantify over
+/// processed configurations, e.g. a minimum level that no number converts to); the harness never
+/// writes a struct literal of `ProcessedDltFilterConfig`, so a field added to it does not stop the
+/// harness from building.
+pub struct PF {
+    pub min_log_level: Option<dlt_core::dlt::LogLevel>,
+    pub app_ids: Option<std::collections::HashSet<String>>,
+    pub ecu_ids: Option<std::collections::HashSet<String>>,
+    pub context_ids: Option<std::collections::HashSet<String>>,
+    pub app_id_count: i64,
+    pub context_id_count: i64,
+}
+impl PF {
+    pub fn build(self) -> dlt_core::filtering::ProcessedDltFilterConfig {
+        let list = |s: &Option<std::collections::HashSet<String>>| s.as_ref().map(|h| h.iter().cloned().collect::<Vec<String>>());
+        let mut p: dlt_core::filtering::ProcessedDltFilterConfig = dlt_core::filtering::DltFilterConfig { min_log_level: None, app_ids: list(&self.app_ids), ecu_ids: list(&self.ecu_ids), context_ids: list(&self.context_ids), app_id_count: self.app_id_count, context_id_count: self.context_id_count }.into();
+        p.min_log_level = self.min_log_level;
+        p.app_ids = self.app_ids;
+        p.ecu_ids = self.ecu_ids;
+        p.context_ids = self.context_ids;
+        p.app_id_count = self.app_id_count;
+        p.context_id_count = self.context_id_count;
+        p
+    }
+}
